@@ -1,6 +1,7 @@
 import FlVerif.Gen.Tables
 import FlVerif.Gen.HedgeGen
 import FlVerif.Lemmas.Antecedent
+import FlVerif.Lemmas.CodeLoadAnte
 
 /-! # C06 — Rule antecedents mean what the rule grammar says
 
@@ -12,6 +13,27 @@ expression tree over the element table whose leaves are the propositions (runs o
 
 namespace C06
 open Lang Op
+
+/-! ## the state machine of `Antecedent.load` is the one of the source -/
+
+/-- **Tie A (code → model), partial.**  `Gen.Code.Antecedent_load` is regenerated from the source of `Antecedent.load`
+    on every run (`fv/pylean.py`; the local `proposition` is translated as an alias of the top of `stack`, the callee
+    `Function.infix_to_postfix` is the parameter `post`).  For every engine *whose variables all have a term*, every
+    behaviour of the callee and every text: an empty text is a `SyntaxError`, an exception of the callee is passed on,
+    and on the tokens of the postfix text the code raises the exception class the model `Op.antecedentLoadPostfix`
+    predicts and otherwise assigns to `self.expression` the tree of the model.  Without the hypothesis the two differ
+    (Python does not recognise the name of a variable without terms: `Variable.__len__`; see
+    `Op.antecedentLoad_model_differs`). -/
+theorem code_antecedentLoad_partial (e : EngineInfo) (post : String → Py.M String) (text : String)
+    (hterms : ∀ v ∈ e.vars, v.terms ≠ []) :
+    if text = "" then Gen.Code.Antecedent_load.run e post text {} = .error .syntax else
+    match post text with
+    | .error x => Gen.Code.Antecedent_load.run e post text {} = .error x
+    | .ok s =>
+      match antecedentLoadPostfix e (Py.split s) with
+      | .error k => Gen.Code.Antecedent_load.run e post text {} = .error k.toPy
+      | .ok a => ∃ σ, Gen.Code.Antecedent_load.run e post text {} = .ok σ ∧ exprA σ.self_expression = some a :=
+  Op.code_antecedentLoad_partial e post text hterms
 
 /-! ## grammar: every writing of every antecedent loads to that antecedent -/
 
